@@ -906,11 +906,29 @@ fn error_tail(bs: &[u8], cap: usize) -> String {
         Err(_) => return "err meta".into(),
     };
     let (mut ok, mut err) = (0usize, 0usize);
+    let mut rle: Vec<(String, usize)> = Vec::new();
     // raw rows (`ColumnIterator` target): an item is Ok iff all cells of the row could be skipped
     if let Ok(it) = dm.rows_iter::<ColumnIterator>() {
         for r in it.take(cap) {
-            if r.is_ok() { ok += 1 } else { err += 1 }
+            match r {
+                Ok(_) => ok += 1,
+                Err(e) => {
+                    err += 1;
+                    let (c, k) = row_err_pos(&e);
+                    let d = format!("{}:{}", c, k);
+                    match rle.last_mut() {
+                        Some((last, n)) if *last == d => *n += 1,
+                        _ => rle.push((d, 1)),
+                    }
+                }
+            }
         }
     }
-    format!("tail rc={} ok={} err={}", dm.rows_count(), ok, err)
+    format!(
+        "tail rc={} ok={} err={} errs={}",
+        dm.rows_count(),
+        ok,
+        err,
+        lst(&rle.iter().map(|(d, n)| format!("{}*{}", d, n)).collect::<Vec<_>>())
+    )
 }
